@@ -112,3 +112,32 @@ Print Assumptions C01_merging_all_holes_conserves_signed_area.
 Example C01_hole_merge_nonvacuous :
   sh2 (merge [mkV2 0 0; mkV2 6 0; mkV2 6 6; mkV2 0 6] [mkV2 2 2; mkV2 2 4; mkV2 4 4; mkV2 4 2] 1 2 (mkV2 0 0)) == 72 - 8.
 Proof. vm_compute. reflexivity. Qed.
+
+(* ---- closed forms of Sphere / Cylinder / Cone (generated area, volume, height, radius, slant_height); pi, sqrt and tan are oracles ---- *)
+From Coq Require Import QArith.
+From LBG Require Import G1_shapes G12_mesh C01_solids.
+Theorem C01_sphere_closed_forms : forall qpi s,
+  (Sphere_area qpi s == 4 * qpi * (sp_r s * sp_r s) /\ Sphere_volume qpi s == (4 # 3) * qpi * (sp_r s * sp_r s * sp_r s))%Q.
+Proof. exact sphere_closed_forms. Qed.
+Print Assumptions C01_sphere_closed_forms.
+
+Theorem C01_cylinder_closed_forms : forall qsqrt qpi c, let h := Cylinder_height qsqrt c in
+  (Cylinder_volume qsqrt qpi c == qpi * (cy_r c * cy_r c) * h /\
+   Cylinder_area qsqrt qpi c == 2 * qpi * cy_r c * (cy_r c + h) /\
+   (qsqrt (len2 (cy_axis c)) * qsqrt (len2 (cy_axis c)) == len2 (cy_axis c) -> h * h == len2 (cy_axis c)))%Q.
+Proof. exact cylinder_closed_forms. Qed.
+Print Assumptions C01_cylinder_closed_forms.
+
+Theorem C01_cone_closed_forms : forall qsqrt qtan qpi c,
+  let h := Cone_height qsqrt c in let R := Cone_radius qsqrt qtan c in let L := Cone_slant_height qsqrt qtan c in
+  (R == h * qtan (co_angle c) /\
+   Cone_volume qsqrt qtan qpi c == qpi * (R * R) * h / 3 /\
+   Cone_area qsqrt qtan qpi c == qpi * R * (R + L) /\
+   (qsqrt (R * R + h * h) * qsqrt (R * R + h * h) == R * R + h * h -> L * L == R * R + h * h))%Q.
+Proof. exact cone_closed_forms. Qed.
+Print Assumptions C01_cone_closed_forms.
+
+(* with the executable root: a cylinder of radius 2 along an axis of length 5 (3-4-5) and "pi" = 3 has volume 3 * 4 * 5 *)
+Example C01_cylinder_concrete :
+  (Cylinder_volume qsqrt_exec 3 (mkCyl (mkV3 1 1 1) (mkV3 0 3 4) 2) == 60)%Q.
+Proof. vm_compute. reflexivity. Qed.
